@@ -9,16 +9,18 @@ import random
 import vlib
 
 TOGGLES = ["FixSessionWriteLock"]
+OPEN = ["FixGracefulClose"]   # deviations that are open findings: modelled, not repaired
 MONITOR_CFG = ("SPECIFICATION Spec\nCONSTANTS\n  TraceFile = \"@TRACE@\"\n"
                "POSTCONDITION Consumed\nCHECK_DEADLOCK FALSE\n")
 TRANSPORTS = ["inproc", "tcp", "tls", "ws", "wss"]
 INITIATORS = ["cfinish", "sfinish", "sfail", "sclose"]
 
 
-def model_cfg(tier, tg):
+def model_cfg(tier, tg, graceful=True):
     k, w, per = (1, 2, 2) if tier == "quick" else (2, 2, 2)
     return ("SPECIFICATION Spec\nCONSTANTS\n  Senders <- MCSenders\n  PerSender = %d\n  K = %d\n  W = %d\n" % (per, k, w)
             + "".join("  %s = %s\n" % (x, vlib.tla_bool(tg[x])) for x in TOGGLES)
+            + "  FixGracefulClose = %s\n" % vlib.tla_bool(graceful)
             + "INVARIANTS TypeOK P_C04 P_C13 WriterExclusion\nCHECK_DEADLOCK FALSE\n")
 
 
@@ -41,6 +43,16 @@ def configs(tier, family):
                                 "count": rng.choice([4, 10, 25]) if tier == "quick" else rng.choice([10, 40, 120]),
                                 "payload": rng.choice(["small", "big"]), "delay": rng.choice([0, 0, 150]),
                                 "initiator": ini, "busy": busy, "seed": vlib.seed() * 100 + rep})
+    if family == "C13":
+        # the terminating server's own consumer is stuck in a handler while the peer keeps sending that kind:
+        # its receiver sits in the hand-over to a full stream when the end is requested
+        for rep in range(reps):
+            for kind in ("msg", "not", "req", "resp"):
+                for ini in ("sfinish", "sfail", "sclose"):
+                    for tr in (TRANSPORTS if tier != "quick" else [rng.choice(TRANSPORTS)]):
+                        out.append({"transport": tr, "buffer": rng.choice([0, 1, 8]), "senders": rng.choice([1, 2]),
+                                    "count": 14, "payload": "small", "delay": 0, "initiator": ini, "busy": True,
+                                    "seed": vlib.seed() * 100 + rep, "stall": kind})
     if family == "C04":   # delivery: more traffic shapes, orderly end only
         extra = []
         for c in out:
@@ -74,6 +86,11 @@ class Fam:
                     raise vlib.Inconclusive("TLC did not complete on Channel:\n" + out[-3000:])
                 res["model"].update({"states": st.get("distinct", 0), "transitions": st.get("generated", 0),
                                      "depth": st.get("depth"), "wall_s": st["wall_s"]})
+                if self.family == "C13" and not tg.get("FixGracefulClose", False):
+                    # the open finding: with the close as written the model itself loses the terminal envelope
+                    out2, st2 = vlib.run_tlc("ChannelMC", model_cfg(tier, tg, graceful=False), scratch, workers=8,
+                                             timeout=1200, heap="8g")
+                    res["model"]["as_written_close_violates_P_C13"] = "Invariant P_C13 is violated" in out2
             cases = [{"n": i + 1, "cfg": c} for i, c in enumerate(configs(tier, self.family))]
         else:
             cases = only_cases
